@@ -257,6 +257,11 @@ func newTransportH() *H[headers.Transport] {
 			"RTP/AVP/TCP;interleaved=0-1;ssrc=0A0B0C0D;mode=receİve",
 			"RTP/SAVP;multicast;destination=225.219.201.15;port=7000-7001;ttl=127",
 			"unicast;ttl=x", "RTP/AVP;source=\"unclosed", "",
+			// duplicated keys in different spellings with different values (case-insensitive matching must not make the
+			// result order dependent)
+			"RTP/AVP;unicast;client_port=5000-5001;Client_Port=6000-6001",
+			"RTP/AVP/TCP;interleaved=0-1;INTERLEAVED=2-3;Interleaved=4;mode=play;Mode=record",
+			"RTP/AVP;ttl=1;TTL=2;ssrc=0A0B0C0D;SSRC=11223344;source=a;Source=b;destination=c;DESTINATION=d;port=1-2;Port=3-4;server_port=5;Server_Port=6",
 		},
 	}
 }
